@@ -1,0 +1,72 @@
+//go:build verif
+
+package fs
+
+import (
+	"sync"
+
+	"github.com/containerd/stargz-snapshotter/fs/layer"
+	"github.com/containerd/stargz-snapshotter/snapshot"
+	"github.com/containerd/stargz-snapshotter/task"
+)
+
+// Verification hooks (build tag "verif" only) for property C15: drive the real Mount / Check of the filesystem
+// without a FUSE mount. No behaviour change unless a harness registers a mountpoint below.
+
+var (
+	verifNoFuseMu sync.Mutex
+	verifNoFuse   = map[string]bool{}
+)
+
+// VerifNoFuseC15 makes Mount return right after it registered the layer of this mountpoint, before the FUSE
+// server would be created (on=false removes the mark).
+func VerifNoFuseC15(mountpoint string, on bool) {
+	verifNoFuseMu.Lock()
+	defer verifNoFuseMu.Unlock()
+	if on {
+		verifNoFuse[mountpoint] = true
+	} else {
+		delete(verifNoFuse, mountpoint)
+	}
+}
+
+func verifSkipFuseC15(mountpoint string) bool {
+	verifNoFuseMu.Lock()
+	defer verifNoFuseMu.Unlock()
+	return verifNoFuse[mountpoint]
+}
+
+// VerifPartsC15 returns the layer resolver and the background task manager of a filesystem made by NewFilesystem.
+func VerifPartsC15(f snapshot.FileSystem) (*layer.Resolver, *task.BackgroundTaskManager) {
+	x, ok := f.(*filesystem)
+	if !ok {
+		return nil, nil
+	}
+	return x.resolver, x.backgroundTaskManager
+}
+
+// VerifLayerC15 returns the layer registered under a mountpoint (nil if none).
+func VerifLayerC15(f snapshot.FileSystem, mountpoint string) layer.Layer {
+	x, ok := f.(*filesystem)
+	if !ok {
+		return nil
+	}
+	x.layerMu.Lock()
+	defer x.layerMu.Unlock()
+	return x.layer[mountpoint]
+}
+
+// VerifForgetC15 unregisters a mountpoint and closes its layer as Unmount does, without the unmount system call.
+func VerifForgetC15(f snapshot.FileSystem, mountpoint string) {
+	x, ok := f.(*filesystem)
+	if !ok {
+		return
+	}
+	x.layerMu.Lock()
+	if l, ok := x.layer[mountpoint]; ok {
+		delete(x.layer, mountpoint)
+		l.Close()
+	}
+	x.layerMu.Unlock()
+	x.metricsController.Remove(mountpoint)
+}
